@@ -26,16 +26,16 @@ func vBool(b bool) val {
 	}
 	return val{k: 'T'}
 }
-func vInt(i int64) val        { return val{k: 'I', i: i} }
-func vBig(dec string) val     { return val{k: 'G', s: dec} }
-func vFloat(text string) val  { return val{k: 'F', s: text} }
-func vStr(s string) val       { return val{k: 'S', s: s} }
-func vBytes(s string) val     { return val{k: 'B', s: s} }
-func vList(e ...val) val      { return val{k: 'L', elems: e} }
-func vTuple(e ...val) val     { return val{k: 'U', elems: e} }
+func vInt(i int64) val         { return val{k: 'I', i: i} }
+func vBig(dec string) val      { return val{k: 'G', s: dec} }
+func vFloat(text string) val   { return val{k: 'F', s: text} }
+func vStr(s string) val        { return val{k: 'S', s: s} }
+func vBytes(s string) val      { return val{k: 'B', s: s} }
+func vList(e ...val) val       { return val{k: 'L', elems: e} }
+func vTuple(e ...val) val      { return val{k: 'U', elems: e} }
 func vRange(a, b, c int64) val { return val{k: 'R', elems: []val{vInt(a), vInt(b), vInt(c)}} }
-func vDict(kv ...val) val     { return val{k: 'D', elems: kv} }
-func vFunc(name string) val   { return val{k: 'C', s: name} }
+func vDict(kv ...val) val      { return val{k: 'D', elems: kv} }
+func vFunc(name string) val    { return val{k: 'C', s: name} }
 
 // seqLen is the number of elements of a sequence value (string, bytes, list, tuple, range).
 func (v val) seqLen() int {
